@@ -45,17 +45,23 @@ CLAIMS = {
         note=NOTE_COMMON + " PARTIAL where the property is false (known findings F4, F5, F6b, F21, F22: commands outside Tame') and for GoodGroup being sufficient, not exact. Reading of -eM/-ema after a join per DESIGN §9."),
     "C09": dict(
         category="proof", design_ref="§7 C09",
-        technique="Lean 4 theorems over a hand-written model of ms.py's option records, printer and argparse layer (print/parse round trip for every option kind relative to an explicit number-codec hypothesis) + differential correspondence and semantic round-trip comparison through an independent ms interpreter",
+        technique="Lean 4 theorems over a hand-written model of ms.py's option records, printer and argparse layer (print/parse round trip for every option kind relative to an explicit number-codec hypothesis); composed round-trip refinement theorem ms_roundtrip_sem_tame (C07's to_ms refinement + C08's from_ms refinement, bridged between the two interpreters) for constant-size graphs + differential correspondence and semantic round-trip comparison through an independent ms interpreter",
         text=("Second sentence of the property (option strings): kernel-checked theorems print_parse_option_partial (EVERY option record with valid parameters — -G/-eG, -g/-eg, -eN, "
               "-n/-en, -eM, -m/-em, -ema, -es, -ej — prints to a string that the Model of the library's own argparse layer parses back to exactly one option of the same kind, in the "
               "right list, with the same indices and values: exactly for non-negative numbers, within 5e-11 for negative ones printed in fixed point), print_parse_option_exact, "
               "print_parse_structure(_samples), printed_numbers_are_not_flags, parser_arity_matches_printer, dest_matches_table, parser_tables_match_source (Model tables = tables "
               "regenerated from the source), relative to the explicit hypothesis NumCodec on str(float)/'.10f' (satisfiable: tableCodec); the excluded case is proved to fail "
               "(print_parse_ma_counterexample / print_parse_ma_never: known finding F20), as are NaN times and -inf matrix entries. First sentence (graph -> ms -> graph): "
-              "toMs_fromMs_structure (single constant-size deme, every N0), closed instances with a pulse and with migration+join, ms_roundtrip_pulse1_counterexample (known finding F6); "
-              "the GENERAL round trip is not a theorem: it is checked by the differential — Model of to_ms/from_ms = code exactly (0 disagreements on thousands of graphs per run) and "
-              "the independent interpreter Spec.MsSem agrees with the graph's demography on every round trip."),
-        note=NOTE_COMMON + " PARTIAL: the general semantic round trip rests on correspondence + the Spec interpreter, not on a theorem. Number printing (str(float), format '.10f') is an explicit hypothesis; sizes/growth from math.exp/log are carried symbolically and compared at 1e-9."),
+              "toMs_msSem_bridge (for every valid ms-expressible graph with constant-size epochs the printed command is plain, parses back to the typed options, and the string "
+              "interpreter Spec.MsSem gives the image of the typed interpreter's demography), ms_roundtrip_sem_partial / ms_roundtrip_sem_tame (such a graph with ancestry proportions "
+              "summing to exactly 1 and PulsesTame pulses — proportions < 1, no pulse chain A->B listed before B->C at one time: if from_ms accepts to_ms's output, the returned graph's "
+              "demography refines the original's: same populations in order, same lifetimes, same size at every time, same migration rate at every cut point, same lineage "
+              "movements), toMs_output_tame (the output of to_ms is in the fragment Tame' of C08), the counterexamples showing each hypothesis is needed "
+              "(ms_roundtrip_acceptance_counterexample = ms_roundtrip_pulse1_counterexample: known finding F6; toMs_tame_needs_pulse_order, toMs_tame_needs_pulse_below_one), "
+              "toMs_fromMs_structure (single deme: acceptance proved too). Acceptance of to_ms's output by from_ms in general, and epochs with exponential growth (printing "
+              "-ln(r)/dt as a decimal needs real analysis and float rounding), are NOT theorems: they are checked by the differential — Model of to_ms/from_ms = code exactly "
+              "(0 disagreements on thousands of graphs per run) and the independent interpreter Spec.MsSem agrees with the graph's demography on every round trip."),
+        note=NOTE_COMMON + " PARTIAL: for exponential epochs and for acceptance by from_ms the semantic round trip rests on correspondence + the Spec interpreter, not on a theorem. Number printing (str(float), format '.10f') is an explicit hypothesis; sizes/growth from math.exp/log are carried symbolically and compared at 1e-9."),
     "C04": dict(
         category="proof", design_ref="§7 C04",
         technique="Lean 4 composition theorems for the dump/load pipelines relative to explicit codec laws (hypotheses, tested on the installed ruamel.yaml/json) built on resolve_asdict, simplify_resolves and the C16 lemmas + end-to-end round-trip testing on the real text layer",
